@@ -13,3 +13,4 @@ open RV.C13
 #print axioms namespaces_exact
 #print axioms view_read_frame
 #print axioms aggregate_reads
+#print axioms bindings_idempotent
